@@ -554,8 +554,17 @@ __setlocale(const char *ln, size_t lz, void(*setf)(struct loc_s))
 			goto clo;
 		}
 
-		/* none of the locales should be a prefix to another */
-		if (UNLIKELY((l = xmemmem(m, fz, ln, lz)) == NULL)) {
+		/* locale names stand on a line of their own,
+		 * skip matches within other names (zh_TW in lzh_TW) */
+		for (l = m; (l = xmemmem(l, fz - (l - m), ln, lz)); l++) {
+			if ((l == m || l[-1] == '\n') &&
+			    (size_t)(l - m) + lz < (size_t)fz &&
+			    l[lz] == '\n') {
+				break;
+			}
+		}
+
+		if (UNLIKELY(l == NULL)) {
 			;
 		} else if (UNLIKELY(l[lz++] != '\n')) {
 			;
